@@ -40,6 +40,30 @@ def prebuilt(kind):
             _CACHE[kind] = d.get_buffer()
         elif kind == "raw":
             _CACHE[kind] = [0x86, 0x12, 0x39, 0x00, 0x55, 0x3C, 0x01, 0x02, 0xFF, 0x00] * 3
+        elif kind == "rawhdr":
+            # a raw binary that happens to contain the tape header marker $55 $3C $00 with nothing valid behind it:
+            # neither a disk nor a cassette image
+            _CACHE[kind] = [0x12, 0x39, 0x55, 0x3C, 0x00] + [0x41] * 40
+        elif kind == "bigcasff":
+            # a >= 161,280-byte tape whose byte at the first would-be directory position is $FF, the others ordinary data
+            sizes = [59002, 60000, 60000]
+            probe = CassetteFile()
+            for i, n in enumerate(sizes):
+                probe.add_file(CoCoFile(name="P%d" % i, extension="BIN", type=NumericValue(2), data_type=NumericValue(0),
+                                        load_addr=NumericValue(0x1000), exec_addr=NumericValue(0x1000),
+                                        data=[1000 + 100000 * i + j for j in range(n)], gaps=NumericValue(0)))
+            pb = probe.get_buffer()
+            datas = [[0x41] * n for n in sizes]
+            first = 78848
+            if pb[first] >= 1000:
+                fi, off = (pb[first] - 1000) // 100000, (pb[first] - 1000) % 100000
+                datas[fi][off] = 0xFF
+            c = CassetteFile()
+            for i, n in enumerate(sizes):
+                c.add_file(CoCoFile(name="P%d" % i, extension="BIN", type=NumericValue(2), data_type=NumericValue(0),
+                                    load_addr=NumericValue(0x1000), exec_addr=NumericValue(0x1000), data=datas[i],
+                                    gaps=NumericValue(0)))
+            _CACHE[kind] = c.get_buffer()
         elif kind == "bigcas":
             c = CassetteFile()
             for i, n in enumerate([59002, 60000, 60000]):
@@ -96,7 +120,7 @@ def make(sid, front, switch, append, pre, nsym=0, twice=False):
             before = prebuilt(pre)
         if before is not None:
             fsinit[target] = before[:]
-        pre_is_cas = pre in ("cas", "bigcas", "bigcas7f")
+        pre_is_cas = pre in ("cas", "bigcas", "bigcas7f", "bigcasff")
         pre_is_dsk = pre == "dsk"
         with MemFS(fsinit) as fs:
             runs = []
@@ -143,7 +167,7 @@ def make(sid, front, switch, append, pre, nsym=0, twice=False):
         return ctx.known(PID, {"part": "matrix"}, env), info
     ob = Ob("C10:%s:%s:%s:%s%s%s" % (front, switch, "append" if append else "plain", pre, nsym or "", ":twice" if twice else ""), body,
             timeout=300, tags={"part": "matrix"}, text="%s --%s %s onto %s%s" % (front, switch, "--append" if append else "", pre, nsym or ""), r4=(pre == "sym"))
-    if pre in ("bigcas", "bigcas7f", "dsk"):
+    if pre in ("bigcas", "bigcas7f", "bigcasff", "dsk"):
         ob.native_only = True       # concrete scenario; scanning a 160-185 KB image under tracing is too slow
     return ob
 
@@ -164,6 +188,12 @@ def obligations(tier, seed):
         obs.append(make(None, front, "to_cas", True, "absent", twice=True))
         obs.append(make(None, front, "to_cas", False, "absent", twice=True))
         obs.append(make(None, front, "to_cas", True, "bigcas7f"))
+        obs.append(make(None, front, "to_dsk", True, "bigcasff"))
+        obs.append(make(None, front, "to_dsk", False, "bigcasff"))
+        for sw in ("to_bin", "to_cas", "to_dsk"):
+            for ap in (False, True):
+                obs.append(make(None, front, sw, ap, "rawhdr"))
+        obs.append(make(None, front, "to_bin", False, "rawhdr", twice=True))
     return obs
 
 
